@@ -84,6 +84,7 @@ type Net struct {
 	Stats     Stats
 	openCli   map[string]int
 	Tap       func(conn int, dir int, data []byte) // observes every written segment (wire monitor)
+	TapRead   func(conn int, dir int, data []byte) // observes bytes as the receiving endpoint reads them
 	OnConn    func(p *Pair)
 }
 
@@ -141,6 +142,19 @@ func (n *Net) Dump() []string {
 			p.ID, p.C.Sent, p.C.Received, p.C.pending, p.C.closed, p.C.rst, p.C.eof, p.S.Sent, p.S.Received, p.S.pending, p.S.closed, p.S.rst, p.S.eof))
 	}
 	return out
+}
+
+// InFlight reports whether any written byte has not yet become readable (future arrival).
+func (n *Net) InFlight() bool {
+	now := time.Now()
+	for _, p := range n.conns {
+		for _, c := range []*Conn{p.C, p.S} {
+			if len(c.segs) > 0 && c.segs[len(c.segs)-1].at.After(now) {
+				return true
+			}
+		}
+	}
+	return false
 }
 
 // Pairs returns all connections made so far, in dial order.
@@ -404,19 +418,20 @@ func (c *Conn) Read(b []byte) (int, error) {
 		now := time.Now()
 		if len(c.segs) > 0 && !c.segs[0].at.After(now) {
 			// bytes available now
+			limit := len(b)
+			if n.P.ReadMax > 0 && limit > n.P.ReadMax {
+				limit = n.P.ReadMax
+			}
 			avail := 0
 			for _, s := range c.segs {
-				if s.at.After(now) {
+				if s.at.After(now) || avail >= limit {
 					break
 				}
 				avail += len(s.data)
 			}
-			want := len(b)
+			want := limit
 			if want > avail {
 				want = avail
-			}
-			if n.P.ReadMax > 0 && want > n.P.ReadMax {
-				want = n.P.ReadMax
 			}
 			if want > 1 && n.P.ShortRead > 0 && simrt.Rand(simrt.StreamNet).Bool(n.P.ShortRead) {
 				want = 1 + simrt.Rand(simrt.StreamNet).IntN(want)
@@ -436,6 +451,9 @@ func (c *Conn) Read(b []byte) (int, error) {
 			}
 			c.pending -= got
 			c.Received += int64(got)
+			if n.TapRead != nil {
+				n.TapRead(c.pair.ID, 1-c.dir(), b[:got])
+			}
 			n.Stats.Reads++
 			simrt.Tracef("net read %s %d bytes (total %d)", c, got, c.Received)
 			return got, nil
@@ -543,7 +561,13 @@ func (c *Conn) deliver(data []byte) {
 		at = p.stallTo
 	}
 	p.lastAt = at
-	cp := make([]byte, len(data))
+	if k := len(p.segs); k > 0 && p.segs[k-1].at.Equal(at) && cap(p.segs[k-1].data) > 0 {
+		// same arrival instant: one segment (keeps the list short for byte-sized writes)
+		p.segs[k-1].data = append(p.segs[k-1].data, data...)
+		p.pending += len(data)
+		return
+	}
+	cp := make([]byte, len(data), len(data)+64)
 	copy(cp, data)
 	p.segs = append(p.segs, segment{cp, at})
 	p.pending += len(cp)
